@@ -1258,6 +1258,10 @@ class ReadParquetFSSpec(ReadParquet):
         return dataset_info
 
     def _filtered_task(self, index: int):
+        if self._plan["empty"]:
+            # The cached plan is shared by every column selection of this
+            # dataset; the empty result must have the schema of THIS expression
+            return (identity, self._meta)
         tsk = (self._io_func, self._plan["parts"][index])
         if self._series:
             return (operator.getitem, tsk, self.columns[0])
